@@ -172,12 +172,12 @@ _HSTATS = {}
 def relations(cases, impl, model):
     from gen import histgen
     hrel = histgen.make_relations(("answers",), _HSTATS)
-    hs = [k for k, (c, t) in enumerate(cases) if t == "search-fresh"]
+    hs = [k for k, (c, t) in enumerate(cases) if t == "search-fresh" or c.startswith("(hist ")]
     for v in hrel([cases[k] for k in hs], [impl[k] for k in hs], [model[k] for k in hs]):
         yield v
     REL_STATS.clear(); REL_STATS.update(oracle_checks=0, counter_above_ids_checks=0); REL_STATS.update(_HSTATS)
     for (case, tag), (out, res) in zip(cases, impl):
-        if tag == "search-fresh":
+        if tag == "search-fresh" or case.startswith("(hist "):
             # freshness during a search: the id counter reported with an answer is never below an id in use in that answer
             # (the next clause fetched takes its ids from the counter)
             try:
@@ -193,7 +193,7 @@ def relations(cases, impl, model):
             except Exception:
                 pass
             continue
-        if tag in ("malformed", "accessor"): continue
+        if tag in ("malformed", "accessor") or not case.startswith(("(rename-", "(get-rule", "(make-query")): continue
         c = parse(case)
         try: r = parse(res)
         except Exception: r = None
